@@ -200,3 +200,6 @@ def run(cx):
         ob.count(sum(x.evals for x in w))
         bad = [v for x in w for v in x.violations]
         ob.require(len(w) == 1 and not bad, "stale-count/removed-first-at-handler-exit", "a finished connection can stay counted while its request tasks are being shut down: " + "; ".join(str(v.msg) for v in bad)[:300], "anemo::network::request_handler::InboundRequestHandler::start")
+
+    with cx.ob("C10.6", "R-WRITERS", "one layer out: the configured connection limit is never rewritten after the Config was built") as ob:
+        check_config_immutable(ob, prog, ["max_concurrent_connections"])
